@@ -235,6 +235,8 @@ structure State where
   prog : Th → List MOp
   nextSeq : Tid → Nat
   snaps : List Snap
+  passed : Th → Bool        -- the thread has read `_socket_manager` (not None) in `MessageRouter.send_message` and is on
+                            --   its way to `has_peer_context`: a `MessageRouter.stop` that begins now no longer stops this send
 
 def CtxSt.init : CtxSt :=
   { alive := true, routerDown := false, objs := fun _ => .absent, lsubs := fun _ => [], rsubs := fun _ => [], rdom := [],
@@ -245,7 +247,7 @@ def Half.init (o : Ctx) : Half := { owner := o, isOpen := false, inbox := [], pe
 
 def State.init : State :=
   { ctx := fun _ => CtxSt.init, conn := fun _ => { cli := Half.init 0, srv := Half.init 0 }, nextConn := 0,
-    prog := fun _ => [], nextSeq := fun _ => 0, snaps := [] }
+    prog := fun _ => [], nextSeq := fun _ => 0, snaps := [], passed := fun _ => false }
 
 /-- user-level calls -/
 inductive Op
@@ -264,6 +266,7 @@ inductive Act
   | arrive (cn : ConnId) (cli : Bool)         -- socket thread reads the next whole message at that end
   | eof (cn : ConnId) (cli : Bool)            -- socket thread sees end-of-stream at that end
   | connect (a : Ctx) (p : Ctx)               -- `connect_to_peer` (handshake + both registrations, atomic)
+  | routerOk (th : Th)                        -- `send_message` found the router active (read outside any lock)
   | stopReq (c : Ctx)                         -- `MessageRouter.stop` begins: `close_all` queued, router marked inactive
   | stop (c : Ctx)                            -- `QMI_Context.stop`: `close_all` runs, the context is gone
   deriving DecidableEq, Repr
@@ -401,6 +404,10 @@ def microStep (s : State) (th : Th) (choice choice2 : Nat) (op : MOp) (rest : Li
   let cs := s.ctx c
   let fin (cs' : CtxSt) (pr : List MOp) (o : Out) : Option (State × Out) :=
     some ((s.setCtx c cs').setProg th pr, o)
+  -- the router was active when this thread read it, or is active now
+  let routerUp : Bool := s.passed th || !cs.routerDown
+  let finS (pr : List MOp) (o : Out) : Option (State × Out) :=
+    some ({ (s.setProg th pr) with passed := upd s.passed th false }, o)
   match op with
   | .snapLocal k p =>
     let rs := cs.lsubs k
@@ -421,11 +428,11 @@ def microStep (s : State) (th : Th) (choice choice2 : Nat) (op : MOp) (rest : Li
     | some d =>
       let ps' := ps.erase d
       let tail := if ps' = [] then rest else .pubSend ps' ob sg p :: rest
-      if (cs.peers d).isSome && !cs.routerDown then fin cs (.enq d (.signal ob sg p) :: tail) (.tau "peer-ok")
-      else fin cs tail (.tau "peer-unknown")
+      if (cs.peers d).isSome && routerUp then finS (.enq d (.signal ob sg p) :: tail) (.tau "peer-ok")
+      else finS tail (.tau "peer-unknown")
   | .sendChk d m =>
-    if (cs.peers d).isSome && !cs.routerDown then fin cs (.enq d m :: rest) (.tau "peer-ok")
-    else fin cs (onSendFail m ++ rest) (.tau "peer-unknown")
+    if (cs.peers d).isSome && routerUp then finS (.enq d m :: rest) (.tau "peer-ok")
+    else finS (onSendFail m ++ rest) (.tau "peer-unknown")
   | .enq d m => fin { cs with loopQ := cs.loopQ ++ [.smSend d m] } rest (.tau "enq")
   | .chkObj1 _k _r =>
     if cs.objs _k.ob = .present then fin cs rest (.tau "obj-present")
@@ -489,8 +496,8 @@ def microStep (s : State) (th : Th) (choice choice2 : Nat) (op : MOp) (rest : Li
     | some x =>
       let ns' := ns.erase x
       let tail := if ns' = [] then rest else .notify ns' ob :: rest
-      if (cs.peers x.2).isSome && !cs.routerDown then fin cs (.enq x.2 (.removed ob x.1) :: tail) (.tau "peer-ok")
-      else fin cs tail (.tau "peer-unknown")
+      if (cs.peers x.2).isSome && routerUp then finS (.enq x.2 (.removed ob x.1) :: tail) (.tau "peer-ok")
+      else finS tail (.tau "peer-unknown")
   | .delObj ob => fin { cs with objs := upd cs.objs ob .absent } rest (.tau "deleted")
   | .reserveObj ob =>
     if cs.objs ob = .absent then fin { cs with objs := upd cs.objs ob .reserved } rest (.tau "reserved")
@@ -599,6 +606,10 @@ def step (s : State) : Act → Option (State × Out)
       some ({ s2 with conn := upd s2.conn cn { cli := { owner := a, isOpen := true, inbox := [], pend := [] },
                                                srv := { owner := p, isOpen := true, inbox := [], pend := [] } },
                       nextConn := cn + 1 }, .req "connect" cn)
+    else none
+  | .routerOk th =>
+    if (s.ctx th.ctx).alive ∧ (s.ctx th.ctx).routerDown = false then
+      some ({ s with passed := upd s.passed th true }, .tau "router-ok")
     else none
   | .stopReq c =>
     if (s.ctx c).alive then
